@@ -95,6 +95,25 @@ def run_and_validate(c, drv, scns, tag, timeout=600):
     return out, tp
 
 
+def confirm_behind_predecessors(c, drv, ordered, tr, k=30):
+    """A mismatch that does not reproduce from its scenario alone may depend on what earlier scenarios of the same driver
+    process left behind in POOLED objects (a damaged recycled context is library state, not harness state).  Replay the
+    scenario behind its k predecessors, twice, in fresh processes: returns (replay_lines, mismatch) when trace `tr` itself
+    mismatches both times at the same line, else None."""
+    idx = [i for i, s in enumerate(ordered) if s[0]['tr'] == tr]
+    if not idx:
+        return None
+    part = ordered[max(0, idx[0] - k):idx[0] + 1]
+    seen = []
+    for i in range(2):
+        m2, _ = run_and_validate(c, drv, part, 'confirm-pred%d' % i)
+        hit = [m for m in m2 if m[0] == tr]
+        seen.append(hit[0] if hit else None)
+    if seen[0] and seen[1] and seen[0][1] == seen[1][1]:
+        return [o for sc in part for o in sc], seen[1]
+    return None
+
+
 def validate_lines(c, recs, tag):
     """validate already recorded (possibly corrupted) trace records; returns set of mismatching trace numbers"""
     cp = os.path.join(c.scratch, tag + '.ndjson')
